@@ -615,7 +615,13 @@ class Evaluator:
         return m(e, frame)
 
     def e_flit(self, e, frame):
-        return ("c", parse_float_literal(e["text"]))
+        q = parse_float_literal(e["text"])
+        lt = strip_cvref(self.F.T(e["t"]))
+        if lt in _MANT and not _exact_in(q, lt) and lt != "long double":
+            # the literal's value is the decimal rounded to the literal's own type; keep that visible so that a
+            # double literal used in a long double computation is not mistaken for the exact decimal
+            return ("cast", lt, ("c", q))
+        return ("c", q)
 
     def e_ilit(self, e, frame):
         return int(e["val"])
@@ -674,7 +680,7 @@ class Evaluator:
     def global_value(self, v, e=None):
         name = v["name"]
         if name.startswith("PhQ::Pi<"):
-            return ("pi",)
+            return ("pi", (v.get("targs") or ["?"])[0])
         if e is not None and "cv" in e:
             t = strip_cvref(self.F.T(e["t"]))
             if t in self.F.enums:
